@@ -198,6 +198,13 @@ template <typename C, typename D>
 void sleep_until(const ::std::chrono::time_point<C, D> &) = delete;
 }  // namespace this_thread
 
+// GCC does not instrument fences under -fsanitize=thread; route them to the run-time explicitly
+extern "C" void __tsan_atomic_thread_fence(int mo);
+inline void atomic_thread_fence(::std::memory_order m) noexcept {
+    ::std::atomic_thread_fence(m);
+    __tsan_atomic_thread_fence((int)m);
+}
+
 // ------------------------------------------------------------------ atomic (wait / notify only)
 template <typename T>
 struct atomic : ::std::atomic<T> {
